@@ -74,6 +74,7 @@ enum Op {
     ReplayRequest(usize),
     Spawn(usize),
     TamperedRequest { client: usize, bit: usize, own_address: bool },
+    SetLimit(usize),
 }
 
 impl C17 {
@@ -130,7 +131,7 @@ impl C17 {
         while !ctx.src.exhausted() && ops < max_ops {
             ops += 1;
             let n = nw.clients.len();
-            let op = match ctx.src.weighted(&[30, 10, 12, 3, 3, 6, 5, 6]) {
+            let op = match ctx.src.weighted(&[30, 10, 12, 3, 3, 6, 5, 6, 4]) {
                 0 => {
                     let c = ctx.src.below(n);
                     let lost_up = ctx.src.chance(40);
@@ -250,6 +251,13 @@ impl C17 {
                         continue;
                     }
                 }
+                8 => {
+                    // the application changes the client limit: keep-alives carry it, so what is sealed from now on differs
+                    let k = 1 + ctx.src.below(4);
+                    nw.servers[0].server.set_max_clients(k);
+                    ctx.label("limit_changed");
+                    Op::SetLimit(k)
+                }
                 _ => {
                     // a genuine request with one bit of its version, protocol id, expiry, nonce or sealed token flipped, presented in
                     // whatever state the server is in (unknown address, handshake pending, connected, full), from its own or another address
@@ -334,7 +342,7 @@ impl Property for C17 {
         "exploration"
     }
     fn rule(&self) -> String {
-        "(a) Enumerated on sample sessions (small and 1300-byte payloads): every single-bit position and every truncation length of one sample datagram of every sealed kind and direction (denied, challenge, response, keep-alive, payload, disconnect) must fail to decode under its own key; every sample opened under another session's key, the other direction's key or another protocol id - in particular each of the 64 ids one bit away - must fail; every single bit of a token's sealed part (1024 bytes), of its nonce and of its bound public fields protocol id and expiry, and opening under another key / protocol id / expiry must fail (hook: private token open), and the server must not answer a request so modified, whether it comes from an unknown address, from the address whose genuine request was just answered (handshake pending), while the handshake is pending at another address, or from the connected session's address. (b) Generated histories: several clients against a server with 1-3 slots, lossy handshakes with retries, requests repeated while connecting or connected (re-challenges), genuine requests with one flipped bit presented in any server state from their own or another address (must never be answered), denials on a full server, keep-alives, payloads of 0-1300 bytes, disconnects from both sides, timeouts; every datagram either side emits is attributed to a key by trial decryption with every key of the case, and per (emitting endpoint, key) no two different datagrams may carry the same sequence number. Non-trivial: (a) a tampered input; (b) a case in which one key sealed at least one handshake reply (denied / challenge) and at least one session packet. Distinct = hash of the decoded case.".into()
+        "(a) Enumerated on sample sessions (small and 1300-byte payloads): every single-bit position and every truncation length of one sample datagram of every sealed kind and direction (denied, challenge, response, keep-alive, payload, disconnect) must fail to decode under its own key; every sample opened under another session's key, the other direction's key or another protocol id - in particular each of the 64 ids one bit away - must fail; every single bit of a token's sealed part (1024 bytes), of its nonce and of its bound public fields protocol id and expiry, and opening under another key / protocol id / expiry must fail (hook: private token open), and the server must not answer a request so modified, whether it comes from an unknown address, from the address whose genuine request was just answered (handshake pending), while the handshake is pending at another address, or from the connected session's address. (b) Generated histories: several clients against a server with 1-3 slots, lossy handshakes with retries, requests repeated while connecting or connected (re-challenges), genuine requests with one flipped bit presented in any server state from their own or another address (must never be answered), denials on a full server, keep-alives, payloads of 0-1300 bytes, disconnects from both sides, timeouts, the client limit changed at run time (keep-alives carry it, so a repeated sequence number no longer repeats the same bytes); every datagram either side emits is attributed to a key by trial decryption with every key of the case, and per (emitting endpoint, key) no two different datagrams may carry the same sequence number. Non-trivial: (a) a tampered input; (b) a case in which one key sealed at least one handshake reply (denied / challenge) and at least one session packet. Distinct = hash of the decoded case.".into()
     }
     fn assumptions(&self) -> Vec<String> {
         vec![
@@ -346,7 +354,7 @@ impl Property for C17 {
         PbtCfg { cases: tier.pick(150_000, 3_000_000), max_len: tier.pick(500, 1600), shrink_ms: 120_000 }
     }
     fn required_labels(&self) -> Vec<&'static str> {
-        vec!["handshake_and_session_under_one_key", "challenged_by_second_server", "fell_back_after_challenge", "tampered_request", "tampered_request_while_pending"]
+        vec!["handshake_and_session_under_one_key", "challenged_by_second_server", "fell_back_after_challenge", "tampered_request", "tampered_request_while_pending", "limit_changed"]
     }
     fn enums(&self, _tier: Tier) -> Vec<(&'static str, u64)> {
         // datagram bits: sample set x (up to 1400*8 bit positions); truncations; token bits; cross-key
